@@ -217,7 +217,8 @@ def gen(prop, seed, tier):
     # (4) users and passwords: empty, 255/256/257, several KiB; options
     for ul in [0, 1, 255, 256, 257, 5000]:
         for pl in [0, 1, 255, 256, 257, 5000]:
-            if rng.random() < (1.0 if tier == "thorough" else 0.45):
+            # both fields at or beyond the limit at once: always (the request is then at its maximal size)
+            if (ul >= 255 and pl >= 255) or rng.random() < (1.0 if tier == "thorough" else 0.45):
                 add("fields/%d-%d" % (ul, pl), user=bytes(rng.randrange(1, 256) for _ in range(ul)),
                     conv=bytes(rng.randrange(1, 256) for _ in range(pl)), chunks=[(0, part(b"OK"))])
     for opts, stack, conv in [([b"try_first_pass"], b"stackpw", b"convpw"), ([b"try_first_pass"], None, b"convpw"),
